@@ -378,6 +378,15 @@ def main(argv):
                    "failure": violations[0], "all": violations}, open(rp, "w"), indent=1)
         out_lines.append("VIOLATION property=%s replay=%s" % (prop, rp))
         exit_code = 1
+    elif mism and cfg.get("mismatch_is_witness") and not problems:
+        # the model is the reference semantics of the property itself: a case on which the
+        # implementation differs from it is a concrete failing input
+        rp = os.path.join(BUILD, "replay", "%s-mismatch.json" % prop)
+        json.dump({"property": prop, "seed": seed, "tier": tier, "kind": "implementation-differs-from-reference-model",
+                   "mismatches": [{"id": i, "case": stats.get("case_index", {}).get(str(i))} for i in mism[:20]]},
+                  open(rp, "w"), indent=1)
+        out_lines.append("VIOLATION property=%s replay=%s" % (prop, rp))
+        exit_code = 1
     elif mism or problems:
         # the proof or the correspondence is broken and the oracle found no failing input
         # on this run's cases: widen the search once (thorough generator, other seed)
